@@ -461,10 +461,14 @@ def spec_Sum(eng, st, lo, hi, fn):
     argts = [(V.int_term(a) if V.is_intlike(a) else V.real_term(a)) for a in args]
     kinds = ["int" if V.is_intlike(a) else "real" for a in args]
     names = [f"Sum_{hkey}.re", f"Sum_{hkey}.im"] if is_cx else [f"Sum_{hkey}"]
+    heap_snap = None
+    if _captures_heap(key):
+        real = eng.cur_state if not hasattr(st, "heap") or st.__class__.__name__ == "CurState" else st
+        heap_snap = dict(real.heap)
     outs = []
     for nm in names:
         f = _uf(eng, nm, *sorts, I, I, R)
-        eng.sum_registry[nm] = dict(rebuild=rb, kinds=kinds, is_cx=is_cx, part=("im" if nm.endswith(".im") else "re"), names=names, nargs=len(args))
+        eng.sum_registry[nm] = dict(rebuild=rb, kinds=kinds, is_cx=is_cx, part=("im" if nm.endswith(".im") else "re"), names=names, nargs=len(args), heap=heap_snap)
         outs.append(Sym(f(*argts, V.int_term(lo), V.int_term(hi)), "real"))
     if is_cx:
         return Cx(outs[0], outs[1])
@@ -780,6 +784,15 @@ def saturate(eng, formulas, rounds=3, unroll_limit=6, level=0, goal=None):
         # --- sqrt / pow / log monotonicity between occurrences
         for nm, mono in (("sqrt", "sqrt"), ("ln", "log"), ("log10", "log")):
             sq = [a for a in acc.get(nm, []) if not _has_bound(a)]
+            if nm == "sqrt":
+                # defining axioms at every occurrence (occurrences created by instantiating a
+                # quantified hypothesis have none yet)
+                for a in sq:
+                    tag = ("sqrtdef", a.get_id())
+                    if tag not in done:
+                        done.add(tag)
+                        new.append(a >= 0)
+                        new.append(z3.Implies(a.arg(0) >= 0, a * a == a.arg(0)))
             for i, a in enumerate(sq):
                 for b in sq[i + 1 :]:
                     tag = (nm + "mono", a.get_id(), b.get_id())
@@ -839,7 +852,35 @@ def _sum_parts(eng, nm, reg, app):
     lo, hi = app.arg(n - 2), app.arg(n - 1)
     vals = [Sym(a, k) if not (z3.is_int_value(a) or z3.is_rational_value(a)) else V.mk(a, k) for a, k in zip(args, reg["kinds"])]
     fn = reg["rebuild"](list(vals))
+    # a summand that captured a dict / object reads the heap as it was when the sum was written
+    hp = getattr(getattr(eng, "cur_state", None), "heap", None)
+    if isinstance(hp, _FallbackHeap):
+        hp.fallback = reg.get("heap") or {}
     return args, lo, hi, fn
+
+
+class _FallbackHeap(dict):
+    fallback = None
+
+    def __missing__(self, key):
+        if self.fallback is not None and key in self.fallback:
+            return self.fallback[key]
+        raise KeyError(key)
+
+    def get(self, key, default=None):
+        if key in self:
+            return dict.__getitem__(self, key)
+        if self.fallback is not None and key in self.fallback:
+            return self.fallback[key]
+        return default
+
+
+def _captures_heap(key):
+    if isinstance(key, tuple):
+        if key and key[0] in ("obj", "list"):
+            return True
+        return any(_captures_heap(k) for k in key)
+    return False
 
 
 def _sum_app(eng, nm, reg, args, lo, hi):
@@ -974,7 +1015,9 @@ def install(eng):
     def new_scratch_state():
         from .engine import State
 
-        return State()
+        s_ = State()
+        s_.heap = _FallbackHeap()
+        return s_
 
     eng.new_scratch_state = new_scratch_state
 
